@@ -28,6 +28,7 @@ SliceOps(n) == CASE n = "C09" -> {"Generate", "Sibling", "Regenerate", "AddNode"
               [] n = "C10" -> {"Generate", "Sibling", "AttachAttackers", "Analyse", "Prune", "Compromise", "Undo", "RemoveNode", "Touch", "SaveLoad"}
               [] n = "C09L" -> {"Generate", "AddNode", "Link", "RemoveNode", "DeepCopy", "SaveLoad", "AttachAttackers"}   \* structure after copy / load
               [] n = "C10R" -> {"Generate", "AttachAttackers", "Undo", "RemoveNode", "SaveLoad"}    \* removals before saving
+              [] n = "C11M" -> {"Generate", "AttachAttackers", "AddGAttacker", "RemoveGAttacker", "Compromise", "Undo", "RemoveNode"}   \* design check: one slot
               [] n = "C13D" -> {"Generate", "AddNode", "Link", "Analyse", "Prune"}    \* added steps with a TTC distribution, linked, labelled, pruned
               [] n = "C13L" -> {"Generate", "AttachAttackers", "Undo", "Touch", "SaveLoad", "Prune"}   \* prune loaded graphs / after undo
               [] n = "C10A" -> {"Generate", "AddNode", "Link", "SaveLoad"}    \* nodes without an asset; a loaded graph saved again
